@@ -18,7 +18,7 @@ class C16(Prop):
         "length field of an inner element at any nesting level (global header, security parameters, USM sequence, scoped PDU, PDU, varbind list, "
         "varbind, name, value) is raised to run 1..N octets past its enclosing element, before signing/encryption => never delivered; (parent-shortened) a constructed element at any level is declared 1-2 octets shorter than its contents, so that its last child runs past it => never delivered; (inner-junk) the same reply is sent twice with different octets inserted after one inner element => identical outcome; (follower) "
         "the same varbind k is sent twice with different following varbinds / junk after its value inside the varbind => the value delivered for k "
-        "is identical and equals the reference denotation, for every value type incl. all REAL forms. non-trivial = a tampered datagram was "
+        "is identical and equals the reference denotation, for every value type incl. all REAL forms. also: elements with no contents octets at all followed by different junk - the deliveries must agree. non-trivial = a tampered datagram was "
         "consumed; distinct = abstract trace + (fault, tampered element, value type)"
     )
     quick_runs = 30000
@@ -47,6 +47,11 @@ class C16(Prop):
         if family == "follower":
             name_k = gen.oid_text(gen.oid(rng))
             val_k = gen.value(rng, kinds)
+            degenerate = rng.random() < 0.12
+            if degenerate:
+                # an element with no contents octets at all (for most types not a legal encoding): whatever
+                # the decoder makes of it, it must not make it out of the octets that follow
+                val_k = ["rawtlv", bytes([rng.choice([0x02, 0x41, 0x42, 0x43, 0x46, 0x47, 0x40, 0x04, 0x06, 0x01, 0x09, 0x44]), 0]).hex()]
             others = [o for o in (gen.oid_text(gen.oid(rng)) for _ in range(6)) if o != name_k][:4] or [name_k + ".1"]
             for opid in (1, 2):
                 ops.append({"id": opid, "s": 0, "op": "get_many", "oids": [name_k] + others})
@@ -54,7 +59,7 @@ class C16(Prop):
                 if opid == 2:
                     before = scripts["1:1"]["replies"][0]["varbinds"][: scripts["1:1"]["k_index"]]
                 k_opts = {}
-                if rng.random() < 0.3:
+                if rng.random() < (0.7 if degenerate else 0.3):
                     k_opts["extra_hex"] = bytes(rng.choice([0x00, 0x30, 0x31, 0x2E, 0x39, 0xFF, 0x05, 0x80]) for _ in range(rng.randint(1, 6))).hex()
                 after = []
                 for _ in range(rng.randint(0, 3)):
@@ -114,7 +119,7 @@ class C16(Prop):
         shapes = []
         if fam == "follower":
             name_k, val_k = run.plan["k"]
-            want = snmp.denote(val_k) if snmp.is_data(val_k) else None
+            want = snmp.denote(val_k) if snmp.is_data(val_k) and val_k[0] != "rawtlv" else None
             got = []
             for res in run.results:
                 exs = run.exchanges(res)
@@ -130,7 +135,7 @@ class C16(Prop):
                 if "ok" in res:
                     d = runner.denorm(res["ok"])
                     got.append(d.get(name_k, "<absent>"))
-                elif junk or not snmp.is_data(val_k):
+                elif junk or not snmp.is_data(val_k) or val_k[0] == "rawtlv":
                     got.append("<refused>")
                 else:
                     out.append(V("C16.wellformed-reply-refused", "reply with followers refused: %s" % _short(res), kind=val_k[0]))
@@ -140,6 +145,12 @@ class C16(Prop):
                 run.sim.count("probe.follower-real")
             vals = [g for g in got if g not in ("<refused>",)]
             run.sim.count("probe.follower-compared")
+            if val_k[0] == "rawtlv":
+                run.sim.count("probe.follower-degenerate")
+                if len({repr(g) for g in vals}) > 1:
+                    out.append(V("C16.value-depends-on-followers", "%s encoded as %s (no contents) delivered as %r depending on the following bytes" % (name_k, val_k[1], vals), kind="empty-" + val_k[1][:2]))
+                run.c16 = shapes
+                return out
             for g in vals:
                 if want is None:
                     if g != "<absent>":
